@@ -6,7 +6,7 @@ from __future__ import annotations
 import math
 import random
 
-NAMES = ["a", "b", "c", "dim", "x1", "n_k", "max_len", "minibatch", "isqrt2", "mina", "A9_"]
+NAMES = ["a", "b", "c", "dim", "x1", "n_k", "max_len", "minibatch", "isqrt2", "mina", "A9_", "in", "class", "is", "lambda", "None", "True"]
 INFIX = {"+": 1, "-": 1, "*": 2, "/": 2, "^": 3}
 
 # AST: ("lit", n) ("var", x) ("bin", op, l, r) ("isqrt", a) ("fun2", "min"|"max", a, b) ("paren", e)
